@@ -6,7 +6,10 @@ import ast
 
 import implexpr
 
-BUILTINS = ["len", "abs", "bool", "min", "max", "sum"]
+BUILTINS = ["len", "abs", "bool", "min", "max", "sum", "sorted", "list", "tuple", "set", "dict", "str", "repr"]
+_ARITY = {"len": (1,), "abs": (1,), "bool": (1,), "min": (2, 3), "max": (2, 3), "sum": (1,), "list": (1,), "tuple": (1,), "set": (1,), "str": (1,), "repr": (1,), "sorted": (1,)}
+_KW = {"sorted": ({"reverse"}, (1,)), "max": ({"default"}, (1,)), "min": ({"default"}, (1,)), "sum": ({"start"}, (1,)), "dict": (None, (0, 1))}
+_CONV = {-1: "none", 115: "s", 114: "r", 97: "a"}
 _BIN = {ast.Add: "+", ast.Sub: "-", ast.Mult: "*", ast.FloorDiv: "//", ast.Mod: "%"}
 _CMP = {ast.Eq: "==", ast.NotEq: "!=", ast.Lt: "<", ast.LtE: "<=", ast.Gt: ">", ast.GtE: ">=", ast.Is: "is",
         ast.IsNot: "is not", ast.In: "in", ast.NotIn: "not in"}
@@ -47,7 +50,7 @@ def to_lean(expr_src, names, objs, lookups=None):
             if n.id not in bound:
                 if n.id in names:
                     v = names[n.id]
-                    if not (v is None or isinstance(v, (bool, int, str, list, implexpr.Obj))):
+                    if not (v is None or isinstance(v, (bool, int, str, list, implexpr.Obj)) or type(v) in (tuple, set, dict)):
                         raise Unsupported("opaque value used")
                     used_names.add(n.id)
                 elif n.id not in BUILTINS:
@@ -58,21 +61,55 @@ def to_lean(expr_src, names, objs, lookups=None):
                 raise Unsupported("attribute")
             return {"k": "attr", "id": i, "e": conv(n.value, bound), "a": n.attr}
         if isinstance(n, ast.Subscript):
-            if isinstance(n.slice, (ast.Slice, ast.Tuple)):
-                raise Unsupported("slice")
+            if isinstance(n.slice, ast.Tuple):
+                raise Unsupported("tuple index")
             return {"k": "subscr", "id": i, "e": conv(n.value, bound), "i": conv(n.slice, bound)}
+        if isinstance(n, ast.Slice):
+            return {"k": "slice", "id": i, "lo": None if n.lower is None else conv(n.lower, bound),
+                    "hi": None if n.upper is None else conv(n.upper, bound), "step": None if n.step is None else conv(n.step, bound)}
+        if isinstance(n, ast.Starred):
+            return {"k": "starred", "id": i, "e": conv(n.value, bound)}
         if isinstance(n, ast.Call):
-            if n.keywords or any(isinstance(a, ast.Starred) for a in n.args):
-                raise Unsupported("call form")
             if not (isinstance(n.func, ast.Name) and n.func.id in BUILTINS and n.func.id not in names and n.func.id not in bound):
                 raise Unsupported("callee")
-            if n.func.id in ("min", "max") and len(n.args) != 2:
-                raise Unsupported("arity")
-            if n.func.id not in ("min", "max") and len(n.args) != 1:
-                raise Unsupported("arity")
             if any(isinstance(a, ast.GeneratorExp) for a in n.args):
                 raise Unsupported("generator")
+            starred = any(isinstance(a, ast.Starred) for a in n.args)
+            if n.keywords or starred:
+                fname = n.func.id
+                if n.keywords:
+                    if fname not in _KW:
+                        raise Unsupported("keywords")
+                    allowed, arities = _KW[fname]
+                    if any(k.arg is None for k in n.keywords) and fname != "dict":
+                        raise Unsupported("** in call")
+                    if allowed is not None and (len(n.keywords) != 1 or n.keywords[0].arg not in allowed):
+                        raise Unsupported("keyword")
+                    if starred or len(n.args) not in arities:
+                        raise Unsupported("arity")
+                else:
+                    # starred arguments: the number of arguments is only known at run time - the driver answers
+                    # NotImplemented for arities it does not know, which makes the case leave the fragment
+                    if fname not in ("min", "max", "sum", "len", "list", "tuple"):
+                        raise Unsupported("starred callee")
+                return {"k": "callkw", "id": i, "f": conv(n.func, bound), "args": [conv(a, bound) for a in n.args],
+                        "kws": [[k.arg, conv(k.value, bound)] for k in n.keywords]}
+            if n.func.id not in _ARITY or len(n.args) not in _ARITY[n.func.id]:
+                raise Unsupported("arity")
             return {"k": "call", "id": i, "f": conv(n.func, bound), "args": [conv(a, bound) for a in n.args]}
+        if isinstance(n, ast.Tuple):
+            return {"k": "coll", "id": i, "kind": "tuple", "es": [conv(e, bound) for e in n.elts]}
+        if isinstance(n, ast.Set):
+            return {"k": "coll", "id": i, "kind": "set", "es": [conv(e, bound) for e in n.elts]}
+        if isinstance(n, ast.Dict):
+            return {"k": "dict", "id": i, "items": [[None if k is None else conv(k, bound), conv(v, bound)] for k, v in zip(n.keys, n.values)]}
+        if isinstance(n, ast.JoinedStr):
+            return {"k": "fstring", "id": i, "parts": [conv(v, bound) for v in n.values]}
+        if isinstance(n, ast.FormattedValue):
+            if n.conversion not in _CONV:
+                raise Unsupported("conversion")
+            return {"k": "fvalue", "id": i, "e": conv(n.value, bound), "conv": _CONV[n.conversion],
+                    "spec": None if n.format_spec is None else conv(n.format_spec, bound)}
         if isinstance(n, ast.UnaryOp):
             return {"k": "unary", "id": i, "op": _UN[type(n.op)], "e": conv(n.operand, bound)}
         if isinstance(n, ast.BinOp):
@@ -88,7 +125,7 @@ def to_lean(expr_src, names, objs, lookups=None):
             return {"k": "ifexp", "id": i, "c": conv(n.test, bound), "t": conv(n.body, bound), "e": conv(n.orelse, bound)}
         if isinstance(n, ast.List):
             if any(isinstance(e, ast.Starred) for e in n.elts):
-                raise Unsupported("starred")
+                return {"k": "coll", "id": i, "kind": "list", "es": [conv(e, bound) for e in n.elts]}
             return {"k": "display", "id": i, "es": [conv(e, bound) for e in n.elts]}
         if isinstance(n, ast.ListComp):
             if bound:
